@@ -141,6 +141,7 @@ struct WriteResult {
     size_t fds_left = 0;
     std::string bytes;
     size_t size_on_disk = 0;
+    uint64_t thread_start_failures = 0;
 };
 
 const char* OUT_PREFIX = "/sim/out.";
@@ -169,7 +170,7 @@ bool wguard(WriteResult& r, const char* where, F&& f) {
 }
 
 // executes the plan; everything (pool, writer) is created and destroyed inside
-WriteResult write_all(const model::Data& d, const WritePlan& p, int pool_threads, int bad_utf8_at = -1) {
+WriteResult write_all(const model::Data& d, const WritePlan& p, int pool_threads, int bad_utf8_at = -1, bool thread_start_fails = false) {
     WriteResult r;
     const std::string path = OUT_PREFIX + p.suffix;
     simfs::remove_file(path);
@@ -178,10 +179,15 @@ WriteResult write_all(const model::Data& d, const WritePlan& p, int pool_threads
         const int base_threads = sim::live_threads();
         {
             std::unique_ptr<osmium::io::Writer> writer;
+            if (thread_start_fails) { sim::set_thread_create_fail_at(0); }   // the Writer's write thread is the next thread created
             bool alive = wguard(r, "ctor", [&] {
                 osmium::io::File file{path, p.options.empty() ? std::string{} : p.suffix + "," + p.options};
                 writer = std::make_unique<osmium::io::Writer>(file, model::build_header(d), pool, osmium::io::overwrite::allow, p.fsync ? osmium::io::fsync::yes : osmium::io::fsync::no);
             });
+            if (thread_start_fails) {
+                r.thread_start_failures = sim::thread_create_failures();
+                sim::set_thread_create_fail_at(-1);
+            }
             if (alive && p.buffer_size) { writer->set_buffer_size(p.buffer_size); }
             int obj_index = 0;
             for (size_t si = 0; alive && si < p.steps.size(); ++si) {
@@ -303,8 +309,9 @@ void run_c08() {
     }
 
     // ---- fault plan
-    enum FK { F_NONE = 0, F_WRITE_ERR, F_FSYNC_ERR, F_CLOSE_ERR, F_ENCODER, F_COMPRESSOR };
+    enum FK { F_NONE = 0, F_WRITE_ERR, F_FSYNC_ERR, F_CLOSE_ERR, F_ENCODER, F_COMPRESSOR, F_THREAD };
     int fk = static_cast<int>(choose(S_FAULT, 6));
+    if (choose(S_FAULT, 15) == 0) { fk = F_THREAD; }
     if (fk == F_FSYNC_ERR && !p.fsync) { fk = F_WRITE_ERR; }
     if (fk == F_ENCODER && p.format != 2) { fk = F_WRITE_ERR; }              // only the OPL encoder validates UTF-8
     // a compressor exists if the file is gzip/bzip2 compressed or if it is PBF with zlib or lz4 blobs
@@ -354,6 +361,8 @@ void run_c08() {
         }
     } else if (fk == F_COMPRESSOR) {
         fault_desc = "compressor (deflate/BZ2_bzCompress/LZ4_compress_fast) fails on call #";
+    } else if (fk == F_THREAD) {
+        fault_desc = "starting the Writer's write thread fails (pthread_create EAGAIN)";
     }
 
     // ---- run under test
@@ -372,9 +381,14 @@ void run_c08() {
         sim::set_compress_fail_at(static_cast<int>(compress_fail_call));
         fault_desc += std::to_string(compress_fail_call);
     }
-    const WriteResult run = write_all(d, p, pool_threads, bad_utf8_at);
+    if (fk == F_THREAD) { sim::set_signature_tag("/writer-thread-start-failure"); }
+    const WriteResult run = write_all(d, p, pool_threads, bad_utf8_at, fk == F_THREAD);
     uint64_t fired = 0;
     for (const auto& f : simfs::faults()) { fired += f.fired; }
+    if (fk == F_THREAD && run.thread_start_failures > 0) {
+        fired += run.thread_start_failures;
+        sim::probe("the Writer's write thread could not be started");
+    }
     if (fk == F_COMPRESSOR && sim::compress_failures() > 0) {
         fired += sim::compress_failures();
         sim::fault_fired("compressor call failed", sim::compress_failures());
@@ -396,7 +410,7 @@ void run_c08() {
     if (!run.refuses_after_error) { sim::report("oracle", "C08.after-error/" + kind + "/accepts-data", "operator() after an exception from " + run.where + " did not throw"); }
     // 2. a hard fault that was returned to the library => an exception
     if (fired > 0 && !run.threw) {
-        static const char* fnames[] = {"none", "write-error", "fsync-error", "close-error", "encoder-error", "compressor-error"};
+        static const char* fnames[] = {"none", "write-error", "fsync-error", "close-error", "encoder-error", "compressor-error", "thread-start-error"};
         sim::report("oracle", std::string{"C08.lost-error/"} + kind + "/" + fnames[fk] + (fk == F_WRITE_ERR && fault.partial ? "-after-partial-write" : ""),
                     fault_desc + " was returned to the library but no call threw; close() returned " + std::to_string(run.close_value) + ", file has " + std::to_string(run.size_on_disk) + " bytes (complete file: " + std::to_string(ref.bytes.size()) + ")");
     }
